@@ -4,7 +4,9 @@ The non-interactive mode needs to be properly reimplemented in the trace
 function.
 '''
 import asyncio
-from typing import TYPE_CHECKING, Any, AsyncIterator
+from contextlib import AsyncExitStack, asynccontextmanager
+from contextvars import ContextVar
+from typing import TYPE_CHECKING, Any, AsyncIterator, Optional
 
 from nextline.events import OnStartPrompt
 from nextline.plugin.spec import Context, hookimpl
@@ -14,12 +16,27 @@ if TYPE_CHECKING:
     from nextline import Nextline
 
 
+# The plugin for which the run is being requested in the current context
+_REQUESTING: ContextVar[Optional['Continue']] = ContextVar('_REQUESTING', default=None)
+
+
 class Continue:
-    def __init__(self, pubsub_enabled: PubSubItem[bool]) -> None:
-        self._pubsub_enabled = pubsub_enabled
+    def __init__(self, continuous: 'Continuous') -> None:
+        self._continuous = continuous
+        self._run_started = False
+
+    @hookimpl
+    async def on_start_run(self) -> None:
+        # Respond only to the prompts of the run requested with this plugin, not
+        # to those of a run in progress when the request is made. This hook is
+        # called in a task created in the context of the run request.
+        if _REQUESTING.get() is self:
+            self._run_started = True
 
     @hookimpl
     async def on_start_prompt(self, context: Context, event: OnStartPrompt) -> None:
+        if not self._run_started:
+            return
         await context.nextline.send_pdb_command(
             command='continue',
             prompt_no=event.prompt_no,
@@ -28,14 +45,17 @@ class Continue:
 
     @hookimpl
     async def on_finished(self, context: Context) -> None:
+        if not self._run_started:
+            return
         context.nextline.unregister(plugin=self)
-        await self._pubsub_enabled.publish(False)
+        await self._continuous.disable()
 
 
 class Continuous:
     def __init__(self, nextline: 'Nextline'):
         self._nextline = nextline
         self._pubsub_enabled = PubSubItem[bool]()
+        self._n_requests = 0  # the requests pending or with the run in progress
 
     async def start(self) -> None:
         await self._pubsub_enabled.publish(False)
@@ -51,15 +71,36 @@ class Continuous:
         await self.close()
 
     async def run_and_continue(self) -> None:
-        await self._pubsub_enabled.publish(True)
-        self._nextline.register(plugin=Continue(pubsub_enabled=self._pubsub_enabled))
-        await self._nextline.run()
+        async with self._requested():
+            await self._nextline.run()
 
     async def run_continue_and_wait(self, started: asyncio.Event) -> None:
-        await self._pubsub_enabled.publish(True)
-        self._nextline.register(plugin=Continue(pubsub_enabled=self._pubsub_enabled))
-        async with self._nextline.run_session():
+        async with AsyncExitStack() as stack:
+            async with self._requested():
+                await stack.enter_async_context(self._nextline.run_session())
             started.set()
+
+    @asynccontextmanager
+    async def _requested(self) -> AsyncIterator[None]:
+        '''Enable the non-interactive mode; disable it again if the run is refused.'''
+        self._n_requests += 1
+        await self._pubsub_enabled.publish(True)
+        plugin = Continue(continuous=self)
+        self._nextline.register(plugin=plugin)
+        token = _REQUESTING.set(plugin)
+        try:
+            yield
+        except BaseException:
+            self._nextline.unregister(plugin=plugin)
+            await self.disable()
+            raise
+        finally:
+            _REQUESTING.reset(token)
+
+    async def disable(self) -> None:
+        '''Called when a request is refused or the run of a request has finished.'''
+        self._n_requests -= 1
+        await self._pubsub_enabled.publish(self._n_requests > 0)
 
     @property
     def enabled(self) -> bool:
